@@ -169,3 +169,25 @@ Theorem c04_cell_loops_share_vertices :
     /\ nth 0 (loop_from_cell_vertices ur) (s2_Cell_Vertex ur 0) = nth 1 (loop_from_cell_vertices ul) (s2_Cell_Vertex ul 0).
 Proof. exact cell_loops_share_vertices_same_face. Qed.
 Print Assumptions c04_cell_loops_share_vertices.
+
+(** C04 linked to C03: the complement theorem for the REAL EdgeOrVertexCrossing of the edge crosser,
+    resting only on the laws of the orientation predicate (discharged in turn by C02 for the exact
+    predicate) — the interface laws eov_sym_cd / eov_degenerate_cd are theorems here, not premises. *)
+From Geo Require Import Model.Crosser Proofs.Link_C03_C04.
+Theorem loop_and_inverse_contain_each_point_exactly_once_linked :
+  forall (point : Type) (peq : point -> point -> bool) (sign triage : point -> point -> point -> BinNums.Z)
+         (tangent : point -> point -> point -> point -> bool) (refdir : point -> point),
+  (forall a, peq a a = true) -> (forall a b, peq a b = peq b a) ->
+  (forall a b c, peq a b = true -> peq b c = true -> peq a c = true) ->
+  (forall a b c, sign b c a = sign a b c) ->
+  (forall a b c, sign c b a = BinInt.Z.opp (sign a b c)) ->
+  (forall a b c, sign a b c = BinNums.Z0 <-> peq a b = true \/ peq b c = true \/ peq c a = true) ->
+  (forall a b c, triage a b c <> BinNums.Z0 -> triage a b c = sign a b c) ->
+  (forall a b c d, tangent a b c d = true ->
+     shared point peq a b c d = false /\ four_agree point sign a b c d = false) ->
+  forall (origin emptyPt fullPt zeroPt : point) (L : Contain.loop point) (p : point),
+    Contain.brute_contains point (eov point peq sign triage tangent refdir) origin zeroPt
+      (Contain.invert point emptyPt fullPt L) p =
+    negb (Contain.brute_contains point (eov point peq sign triage tangent refdir) origin zeroPt L p).
+Proof. exact invert_complement_from_orientation_laws. Qed.
+Print Assumptions loop_and_inverse_contain_each_point_exactly_once_linked.
